@@ -312,3 +312,17 @@ def is_tgt(v, values, nv):
 
 
 OPAQUE |= {"spec_dist", "is_tgt", "spec_direction"}
+
+
+# ------------------------------------------------------------------ C14 A*
+def not_crossable(v, barriers, nb):
+    # NaN cells and barrier values cannot be entered
+    return isnan(v) or any(v == barriers[i] for i in range(0, nb))
+
+
+def pdist(x1, y1, x2, y2):
+    # euclidean distance in pixel space
+    return sqrt((x1 - x2) * (x1 - x2) + (y1 - y2) * (y1 - y2))
+
+
+OPAQUE |= {"not_crossable"}
